@@ -576,10 +576,29 @@ def rule_read_tag(facts):
     return r
 
 
+def rule_padding_scan(facts):
+    """The block-header padding test is delegated to the scan loop flush_zero_padding: a non-zero byte in ANY fragment the reader
+    delivers must decide (shared clause: C13.R1's scan idiom restricted to that function - emptiness exit, consume(len), no round
+    counter, the verdict carried over the rounds)."""
+    from rules import C13
+    r = report.RuleResult("C06.R6", "the header-padding scan judges every byte of every fragment (= C13.R1 on flush_zero_padding)")
+    src = C13.rule_fill_buf(facts)
+    for f in src.findings:
+        if "flush_zero_padding" in (f.where + f.key) or f.key.startswith("floor"):
+            f.rule = "C06.R6"
+            r.findings.append(f)
+            r.obligations += 1
+    r.sites = src.sites
+    r.need("fill_buf sites analysed", src.sites >= 2)
+    if not r.findings:
+        r.ok("provenance", {"flush_zero_padding": "scan loop: every fragment scanned, verdict not overwritten by a later fragment"})
+    return r
+
+
 def run(ctx, t0):
     facts = ctx.facts()
     r1, r3 = rule_table(facts)
-    rules = [r1, rule_digest(facts), r3, rule_records(facts), rule_read_tag(facts), rule_padding_helpers(facts)]
+    rules = [r1, rule_digest(facts), r3, rule_records(facts), rule_read_tag(facts), rule_padding_helpers(facts), rule_padding_scan(facts)]
     # rows 3, 4 and 20 are decided by the C18 rules (reserved bits, id table, trailing data)
     rules.append(C18.rule_reserved(facts))
     rules.append(C18.rule_trailing(facts))
